@@ -39,15 +39,7 @@ impl DataAggregator {
 //@ ret r
 //@ subst `chunks.iter().map(|c| c.data.len()).sum()` => `vx_sum_data_len(&chunks)` :: R7 outline of an iterator chain (sum of the chunk data lengths; the outline's precondition is the absence of usize overflow)
 //@ contract
-        requires
-            // what FileDeduper::finalize hands over (U-DEDUP istruct)
-            chunks_ok(chunks@), sum_len(hashes(chunks@)) <= usize::MAX,
-            segs_ok(pending_file_info.segments@, hashes(chunks@)),
-            ire_ok(internally_referencing_entries@, pending_file_info.segments@),
-        ensures
-            r.agg_wf(), r.chunks == chunks, r.num_bytes == sum_len(hashes(chunks@)),
-            r.pending_file_info@ =~= seq![(pending_file_info, internally_referencing_entries)],
-            /*@C01*/ r.den(0) == flatten(pending_file_info.segments@, hashes(chunks@)),
+//@ include prelude/c_agg_new.rs
 //@ body-start
         proof { lemma_sum_data_len(chunks@); }
 //@ end
